@@ -1007,6 +1007,17 @@ static void probe_child(void* vctx, FILE* out) {
                 }
             } else {
                 hdr_oracle(out, "H1", data, n, cm->data_page_offset);
+                /* a dictionary page found where the data pages start is loaded as the dictionary: the data
+                 * page that follows it is the second stage */
+                int64_t off = cm->data_page_offset;
+                if (off >= 0 && (uint64_t)off < n) {
+                    size_t avail = n - (size_t)off, w = avail < 256 ? avail : 256;
+                    uint8_t* copy = malloc(w ? w : 1); memcpy(copy, data + off, w);
+                    parquet_page_header_t h; size_t hs = 0; carquet_error_t pe = CARQUET_ERROR_INIT;
+                    if (parquet_parse_page_header(copy, w, &h, &hs, &pe) == CARQUET_OK && h.type == CARQUET_PAGE_DICTIONARY)
+                        hdr_oracle(out, "H2", data, n, off + (int64_t)hs + h.compressed_page_size);
+                    free(copy);
+                }
             }
             uint8_t dummy[16]; int64_t nread = 0, nn = 0;
             carquet_error_t le = CARQUET_ERROR_INIT;
